@@ -14,6 +14,24 @@ PARAMS = {"X01": ("Syslog", "syslog", "CONSTANTS MaxOps = %d\n", (1, 2), "Emit A
           "X03": ("CtxStore", "ctxstore", "CONSTANTS MaxOps = %d\n", (4, 5), "Emit DisabledNeverFirst")}
 
 
+def ctx_part(sc, tier):
+    """The CtxStore histories (X03) as a part of C05: a logger stored in a context.Context is a derived value like any other -
+    what is stored further in must not change what an outer context's logger is (ctx.go is one of C05's anchors)."""
+    mod, fam, consts, bounds, invs = PARAMS["X03"]
+    mdir = sc.sub("tlc-ctx")
+    copy_specs(FAMILY, mdir)
+    player = go_build("./players/hist", sc.path("histplayer-ctx"))
+    r = tlc(mdir, mod, consts % (bounds[1] if tier == "thorough" else bounds[0]) + "SPECIFICATION Spec\nCHECK_DEADLOCK FALSE\nINVARIANTS %s\n" % invs, workers=4, timeout=900)
+    if not r.completed:
+        raise Inconclusive("%s: %s" % (mod, r.out[-1500:]))
+    lines = [json.dumps({"fam": fam, "conf": "", "ops": [json.loads(x[2])], "id": "%s-%d" % (fam, i)}) for i, x in enumerate(r.prints("HIST"))]
+    if not lines:
+        raise Inconclusive("%s exported no history" % mod)
+    recs = run_player(player, sc, "ctxstore", lines, shards=min(NCPU, max(1, len(lines) // 200)))
+    bads = validate_sharded(sc.dir, "AuxTrace", "hist.ndjson", [rr for _, rr in recs], min(NCPU, max(1, len(recs) // 400)), FAMILY)
+    return recs, [(json.loads(recs[ri][0]), e) for ri, k, e, sig in bads], {"model_states": r.distinct, "histories": len(lines)}
+
+
 def check(pid, tier, seed, replay=None):
     t0 = time.time()
     mod, fam, consts, bounds, invs = PARAMS[pid]
